@@ -197,7 +197,9 @@ VALID_BODIES = ['>>> print(1 + 1)\n2', '>>> x = 1\n>>> print(x)\n1', '>>> y = [1
                 '>>> # xdoctest: +SKIP\n>>> boom()']
 BROKEN_BODIES = ['>>> x = (', '>>> x = [1,\n2]', '>>> def f(:\n...     pass', ">>> s = '''abc", '>>> print(1))', '>>> 1 # xdoctest: +SKIP(',
                  '>>> if x:\n... pass', '>>> 1 # XDOCTEST: +SKIP(', '>>> 1 # XDoc: +SKIP)', '>>> 1  # DOCTEST: +REQUIRES(a',
-                 '>>> # XDOCTEST: +REQUIRES(module:os\n>>> 1', '>>> f(1)  # Xdoc: +SKIP)(']
+                 '>>> # XDOCTEST: +REQUIRES(module:os\n>>> 1', '>>> f(1)  # Xdoc: +SKIP)(',
+                 # a real SyntaxError whose offending LINE holds braces / percent signs (text that ends up in the warning message)
+                 ">>> print 'x = {}'.format(1)", '>>> s = {1, 2} 3', ">>> {'k': 0} = 5", '>>> print "%s %d {0}" % x']
 # tags the google splitter turns into blocks of their own; `Benchmark:` / `Script:` / `CommandLine:` are plain text for it
 # (they only matter to the freeform skip patterns)
 EXAMPLE_TAGS = ('Example', 'Examples', 'Doctest')
